@@ -406,7 +406,7 @@ fn main() {
             }
         }
         let mut rng = ctx.rng();
-        for _ in 0..ctx.size(12_000, 200_000) {
+        for _ in 0..ctx.size(8_000, 200_000) {
             let (input, tag) = gen_case(&mut rng);
             let o = run_case(&input);
             ctx.count(tag);
